@@ -28,11 +28,11 @@ CHECKS = {
             "4 C20"),
     "C15": ("T", "exploration",
             "The folded conv+BN layers carry a step clock (_iteration) and EMA state; inference equality is checked at arbitrary instants of a simulated training history: before the first step, inside the pre-freeze window, exactly at ema_freeze_delay, just past it, after clock jumps (checkpoint loads), after BN statistic faults (tiny variance, zero/negative gamma, large mean), after restarts (json/clone/h5) and after conversion from a stock conv+BN model. At every probe the model must equal a stock Keras model whose folded layers are replaced by conv layers holding [q(kernel*gamma/sqrt(var+eps)), q((bias-mean)*gamma/sqrt(var+eps)+beta)] computed by the harness from the current parameters, and the probe must change no variable (clock, moving statistics, weights); unfold_model and model_quantize(enable_bn_folding) must preserve predictions. Sampling, not proof.",
-            BASE + "training calls are forward passes with training=True (no optimizer); probes whose folded values sit within 2e-6 (relative) of a rounding breakpoint are not judged; conversion is compared with the source within the error of 16-bit weights and then by the exact per-layer oracle.",
+            BASE + "training calls are forward passes with training=True plus real model.fit steps (FIT op); BN epsilon/momentum and a fused activation are varied for directly built layers only (the conversion utilities rebuild the architecture with default BN hyper-parameters); probes whose folded values sit within 2e-6 (relative) of a rounding breakpoint are not judged; conversion is compared with the source within the error of 16-bit weights and then by the exact per-layer oracle.",
             TECH + "virtual step clock with jumps and statistic faults driving real folded layers; reference model rebuilt from current parameters at every probe",
             "4 C15"),
     "C13": ("M", "exploration",
-            "Restart of a whole model with real I/O: generated quantized models over every layer class of the custom-object table are rebuilt from JSON, the library clone, HDF5 on a scratch path, HDF5 through a simulated file object under h5py's file-object driver, and a weights file, at arbitrary points of a history (weight perturbations, an export, a completed noise schedule that left variable-backed knobs, compile); predictions must be bit-identical and layers must report the same quantizers, with no custom objects. Disk faults (ENOSPC/EIO at the n-th write, short writes, crash with only flushed bytes surviving) are injected into model.save: the live model must stay untouched and a subsequent complete save must round-trip. Sampling, not proof.",
+            "Restart of a whole model with real I/O: generated quantized models over every layer class of the custom-object table are rebuilt from JSON, the library clone, HDF5 on a scratch path, HDF5 through a simulated file object under h5py's file-object driver, and a weights file, at arbitrary points of a history (weight perturbations, an export, a completed or interrupted noise schedule that left variable-backed knobs, training calls moving QAdaptiveActivation ranges, a real optimizer step whose optimizer state is saved too, compile); predictions must be bit-identical and layers must report the same quantizers, with no custom objects. Disk faults (ENOSPC/EIO at the n-th write, short writes, crash with only flushed bytes surviving) are injected into model.save: the live model must stay untouched and a subsequent complete save must round-trip. Sampling, not proof.",
             BASE + "crash granularity = write/flush calls h5py issues on the file object; the content of a torn file is counted, not judged (the property does not say what a truncated HDF5 must do); QConv2DTranspose excluded (cannot run on TF 2.21).",
             TECH + "restart-from-durable-state histories on generated models, SimFile disk with injected write errors/short writes/crashes, read-only invariant on the live model",
             "4 C13"),
@@ -42,7 +42,7 @@ CHECKS = {
             TECH + "fault enumeration over export crash points per generated model + seeded export/perturb/freeze histories; role-based reference oracle",
             "4 C14"),
     "C07": ("Q+T", "exploration",
-            "Quantizer half: the knob is mutable state (python float or tf.Variable); seeded orders of update (float/const/Variable argument), variable build, tf.function trace, set_trainable and restart around calls; after every call y = surrogate + f*(fully quantized sibling - surrogate), f=1 bit-identical to the sibling, constructor-constant sibling agrees, a trace taken after the variable build follows later updates. Scheduler half: a virtual step clock emits Keras callback event sequences (interrupted fits, repeated fits with one callback, resumes with a fresh callback, duplicated train_begin, clock jumps) against the real QNoiseScheduler and real models; at every update step every knob-bearing quantizer found by an independent attribute walk carries 0 before start, 1 from finish, the documented curve between, never decreasing; real model.fit runs validate the simulated event source. Sampling, not proof.",
+            "Quantizer half: the knob is mutable state (python float or tf.Variable); seeded orders of update (float/const/Variable argument), variable build, tf.function trace, set_trainable and restart around calls; after every call y = surrogate + f*(fully quantized sibling - surrogate), f=1 bit-identical to the sibling, constructor-constant sibling agrees, a trace taken after the variable build follows later updates. Scheduler half: a virtual step clock emits Keras callback event sequences (interrupted fits, repeated fits with one callback, resumes with a fresh callback, duplicated train_begin, clock jumps) against the real QNoiseScheduler and real models; at every update step every knob-bearing quantizer found by an independent attribute walk (nested models, TimeDistributed / Bidirectional / RNN-around-cell wrappers, recurrent cells and their activation quantizers included) carries 0 before start, 1 from finish, the documented curve between, never decreasing; real model.fit runs validate the simulated event source. Sampling, not proof.",
             BASE + "simulated fits do not train weights (the property does not depend on them); traces taken before the variable build and traced auto-scale quantizers are not judged (TensorFlow constant capture / graph float reassociation).",
             TECH + "virtual step clock driving the real callback with injected interrupts/resumes/clock jumps + seeded update/build/trace orderings on the knob; shadow reference model of the schedule",
             "4 C07"),
@@ -101,16 +101,16 @@ def main():
           {"name": "Q", "path": "sim/engine_q.py",
            "serves_properties": ["C04", "C05", "C07", "C08", "C09"],
            "kind_free_text": "quantizer world: seeded scheduler over caller/reader/updater/serialiser ops on shared quantizer objects; uniform-draw and learning-phase seams"},
-          {"name": "T", "path": "sim/engine_t.py", "serves_properties": ["C07", "C15"],
-           "kind_free_text": "training-loop world: virtual step clock emitting Keras callback events / training calls with interrupts, resumes and clock jumps"},
+          {"name": "T", "path": "sim/t_c15.py", "serves_properties": ["C07", "C15"],
+           "kind_free_text": "training-loop world (sim/t_c15.py, scheduler half of sim/p_c07.py): virtual step clock emitting Keras callback events / training calls with interrupts, resumes and clock jumps; real model.fit runs validate the event source"},
           {"name": "M", "path": "sim/engine_m.py", "serves_properties": ["C13", "C14"],
            "kind_free_text": "model world: generated quantized models, restart through JSON/clone/HDF5 on a simulated disk, export with enumerated crash points"},
-          {"name": "A", "path": "sim/engine_a.py", "serves_properties": ["C20"],
+          {"name": "A", "path": "sim/a_c20.py", "serves_properties": ["C20"],
            "kind_free_text": "AutoQKeras world: hyper-model as a stateful server driven by a fake tuner (duplicates, reordering, crashed builds, block sequencing)"},
       ],
       "checks": [chk(p) for p in claimed],
       "not_applicable": [{"property_id": k, "reason": v} for k, v in sorted(na.items())],
-      "notes": "Deterministic simulation with fault injection; see DESIGN.md. exit 0 held / exit 1 VIOLATION line / exit 2 harness error. Genuine defects found and repaired are listed in known_findings.json with status 'fixed'. Properties designed as claimed but whose check is not yet registered here are listed in DESIGN.md.",
+      "notes": "Deterministic simulation with fault injection; see DESIGN.md. exit 0 held / exit 1 VIOLATION line / exit 2 harness error. Genuine defects found and repaired are listed in known_findings.json with status 'fixed'.",
   }
   with open(os.path.join(HERE, "MANIFEST.json"), "w") as f:
     json.dump(man, f, indent=1)
